@@ -46,10 +46,123 @@ class Collections:
             out.append(x)
         return out
 
+    # ------------------------------------------------------------------ maps
+    # a map is ("seq", "map", [("tuple", [key, ref-to-value-cell]), ...]); values live in heap cells so that
+    # get_mut / entry().and_modify / OccupiedEntry::get_mut hand out references that can be written through
+    def _map_find(self, it, items, key):
+        kk = self.sort_key(it, key)
+        for i, kv in enumerate(items):
+            if self.sort_key(it, kv[1][0]) == kk:
+                return i
+        return None
+
+    def _cell(self, it, v):
+        nm = "mapcell#%d" % (len(it.heap) + 1)
+        it.heap[nm] = it.deref_val(v) if v is not None and v[0] == "ref" else v
+        return E.href(nm)
+
+    def _map_insert(self, it, mref, items, key, val, ordered):
+        i = self._map_find(it, items, key)
+        if i is not None:
+            old = it.read_loc(items[i][1][1][1])
+            it.write_loc(items[i][1][1][1], it.deref_val(val) if val is not None and val[0] == "ref" else val)
+            return E.Some(old), items[i][1][1]
+        cell = self._cell(it, val)
+        new = items + [("tuple", [key, cell])]
+        if ordered:
+            new = sorted(new, key=lambda kv: self.sort_key(it, kv[1][0]))
+        self._set(it, mref, seq("map", new))
+        return E.NONE, cell
+
+    def handle_map(self, name, t, args, it, full):
+        a0 = args[0] if args else None
+        if name in ("new", "default", "with_capacity") and ("HashMap" in full or "BTreeMap" in full) and not any(is_seq(it.deref_val(a)) for a in args):
+            return seq("map", [])
+        # entry objects: ("adt", ENTRY, idx, {0: ("tuple", [mapref, key, cell-or-None])})
+        d0 = it.deref_val(a0) if a0 is not None else None
+        if d0 is not None and d0[0] == "adt" and d0[1] == "map::Entry":
+            inner = d0[3][0]
+            mref, key, cell = inner[3][0][1]
+            m = self._get(it, mref)
+            ordered = inner[3][1] == ("int", 1)
+            if name == "and_modify":
+                if cell is not None:
+                    it.apply(args[1], [cell])
+                return a0
+            if name in ("or_insert", "or_insert_with", "or_default", "or_insert_with_key"):
+                if cell is not None:
+                    return cell
+                v = args[1] if name == "or_insert" else (E.Tok("default") if name == "or_default" else it.apply(args[1], [] if name == "or_insert_with" else [key]))
+                return self._map_insert(it, mref, m[2], key, v, ordered)[1]
+            if name == "key":
+                return key
+            return None
+        if d0 is not None and d0[0] == "adt" and d0[1] in ("map::OccupiedEntry", "map::VacantEntry"):
+            mref, key, cell = d0[3][0][1]
+            m = self._get(it, mref)
+            ordered = d0[3][1] == ("int", 1)
+            if name in ("get", "get_mut", "into_mut") and cell is not None:
+                return cell
+            if name == "key":
+                return key
+            if name == "insert":
+                old, c = self._map_insert(it, mref, m[2], key, args[1], ordered)
+                return c if d0[1] == "map::VacantEntry" else (old[3].get(0, E.TOP) if old[2] == 1 else E.TOP)
+            if name in ("remove", "remove_entry") and cell is not None:
+                i = self._map_find(it, m[2], key)
+                old = it.read_loc(cell[1])
+                self._set(it, mref, seq("map", m[2][:i] + m[2][i + 1:]))
+                return old if name == "remove" else ("tuple", [key, old])
+            return None
+        m = self._get(it, a0) if a0 is not None else None
+        if m is None or m[1] != "map":
+            return None
+        items = m[2]
+        ordered = "BTreeMap" in full
+        if name == "insert" and len(args) == 3:
+            return self._map_insert(it, a0, items, args[1], args[2], ordered)[0]
+        if name in ("get", "get_mut"):
+            i = self._map_find(it, items, it.deref_val(args[1]) if args[1][0] == "ref" else args[1])
+            return E.Some(items[i][1][1]) if i is not None else E.NONE
+        if name == "contains_key":
+            i = self._map_find(it, items, it.deref_val(args[1]) if args[1][0] == "ref" else args[1])
+            return E.Int(1 if i is not None else 0)
+        if name == "remove":
+            i = self._map_find(it, items, it.deref_val(args[1]) if args[1][0] == "ref" else args[1])
+            if i is None:
+                return E.NONE
+            old = it.read_loc(items[i][1][1][1])
+            self._set(it, a0, seq("map", items[:i] + items[i + 1:]))
+            return E.Some(old)
+        if name == "entry":
+            i = self._map_find(it, items, args[1])
+            cell = items[i][1][1] if i is not None else None
+            pay = ("tuple", [a0, args[1], cell])
+            inner = E.Adt("map::OccupiedEntry" if cell is not None else "map::VacantEntry", 0, {0: pay, 1: E.Int(1 if ordered else 0)})
+            # std: hash_map::Entry { Occupied, Vacant }, btree_map::Entry { Vacant, Occupied }
+            idx = (1 if cell is not None else 0) if ordered else (0 if cell is not None else 1)
+            # a `match` on the entry downcasts to the variant and takes field 0: the Occupied/Vacant entry object
+            return E.Adt("map::Entry", idx, {0: inner})
+        if name in ("iter", "into_iter", "iter_mut", "drain"):
+            return seq("iter", [("tuple", [kv[1][0], it.read_loc(kv[1][1][1]) if name in ("into_iter", "drain") else kv[1][1]]) for kv in items])
+        if name in ("values", "into_values", "values_mut"):
+            return seq("iter", [it.read_loc(kv[1][1][1]) if name == "into_values" else kv[1][1] for kv in items])
+        if name in ("keys", "into_keys"):
+            return seq("iter", [kv[1][0] for kv in items])
+        if name == "len":
+            return E.Int(len(items))
+        if name == "is_empty":
+            return E.Int(0 if items else 1)
+        return None
+
     def handle(self, kind, name, payload, site):
         if kind != "call":
             return None
         t, args, it = payload
+        fullm = (t["f"].get("full") or "") + " " + (t["f"].get("path") or "") + " " + (t["f"].get("res") or "")
+        rm = self.handle_map(name, t, args, it, fullm)
+        if rm is not None:
+            return rm
         full = (t["f"].get("full") or "") + " " + (t["f"].get("path") or "") + " " + (t["f"].get("res") or "")
         a0 = args[0] if args else None
         s0 = self._get(it, a0) if a0 is not None else None
@@ -178,6 +291,23 @@ class Collections:
             for x in items:
                 acc = it.apply(args[2], [acc, x])
             return acc
+        if name in ("try_fold", "try_for_each"):
+            acc = args[1] if name == "try_fold" else E.UNIT
+            fn = args[2] if name == "try_fold" else args[1]
+            rest = list(items)
+            while rest:
+                x = rest.pop(0)
+                r = it.deref_val(it.apply(fn, [acc, x] if name == "try_fold" else [x]))
+                if r is None or r[0] != "adt" or r[1] not in (E.RESULT, E.OPTION, E.CFLOW):
+                    raise E.Unsupported("%s callback result undetermined" % name)
+                good = (r[2] == 0) if r[1] in (E.RESULT, E.CFLOW) else (r[2] == 1)
+                if not good:
+                    self._set(it, a0, seq(k, rest))
+                    return r
+                acc = r[3].get(0, E.UNIT)
+            self._set(it, a0, seq(k, []))
+            # the Try type of the result is the callback's: rebuild the success value in the same type
+            return E.Ok(acc) if "Result<" in full or "anyhow" in full else (E.Some(acc) if "Option<" in full else E.Ok(acc))
         if name in ("collect", "from_iter"):
             if "BTreeSet" in full:
                 return seq("set", self._sorted(it, items))
